@@ -211,6 +211,7 @@ def run_public(spec, acc):
         for fmt in FORMATS:
             enc = NMEA2000Encoder()
             dec = NMEA2000Decoder()
+            enc2, dec2 = NMEA2000Encoder(), NMEA2000Decoder()
             prev_seq = None
             for c in range(n_payloads):
                 payload = dbx.pack(d, gen.base_raws(d, rng, dbx))
@@ -243,7 +244,26 @@ def run_public(spec, acc):
                 prev_seq = seq
                 acc.case((fmt, d.id, ref_payload))
                 acc.cover("public_definitions", d.id)
+                # a neighbour: another encoder/decoder pair in the same process carrying another message of the same
+                # stream at the same time, frame by frame in lockstep. Each decoder must reassemble its own message.
+                frames2, expect2, r2 = [], None, None
+                try:
+                    pay2 = dbx.pack(d, gen.base_raws(d, rng, dbx))
+                    if dbx.select(d.pgn, pay2) is d:
+                        m2 = src_dec.decode_basic_string(wire.plain_line(3, d.pgn, 7, 255, pay2.to_bytes(nb, "little")), already_combined=True)
+                        if m2 is not None:
+                            m2.source, m2.destination, m2.priority = 7, 255, 3
+                            ref2 = bytes.fromhex(enc2.encode_actisense(m2).split()[2])
+                            expect2 = src_dec.decode_basic_string(wire.plain_line(3, d.pgn, 7, 255, ref2), already_combined=True)
+                            frames2 = encode_frames(enc2, fmt, m2)
+                except Exception:  # noqa: BLE001
+                    frames2, expect2 = [], None
                 for k, (ident, data, raw) in enumerate(frames):
+                    if k < len(frames2):
+                        try:
+                            r2 = feed(dec2, fmt, *frames2[k])
+                        except Exception:  # noqa: BLE001
+                            r2 = None
                     try:
                         r = feed(dec, fmt, ident, data, raw)
                     except Exception as e:  # noqa: BLE001
@@ -264,6 +284,16 @@ def run_public(spec, acc):
                                           {"ctx": ctx, "frames": [x.hex() for _, x, _ in frames]})
                         else:
                             acc.count("messages_reassembled_equal")
+                if expect2 is not None and frames2:
+                    for k in range(len(frames), len(frames2)):
+                        try:
+                            r2 = feed(dec2, fmt, *frames2[k])
+                        except Exception:  # noqa: BLE001
+                            r2 = None
+                    acc.count("neighbour_messages_checked")
+                    if r2 is None or project.msg_proj(r2, with_hash=False) != project.msg_proj(expect2, with_hash=False):
+                        acc.violation("neighbour-decoder-loses-its-message", f"{ctx}: a second decoder reassembling another message of the same stream at the same time "
+                                      f"returned {'nothing' if r2 is None else 'a different message'}", {"ctx": ctx, "frames": [x.hex() for _, x, _ in frames2]})
 
 
 def run_fallback(spec, acc):
